@@ -5,11 +5,13 @@ import (
 	"reflect"
 	"runtime"
 	"sort"
+	"strings"
 	"sync"
 	"sync/atomic"
 	"time"
 
 	z "github.com/Oudwins/zog"
+	"github.com/Oudwins/zog/parsers/zjson"
 
 	"zogverif/internal/core"
 	"zogverif/internal/gen"
@@ -48,7 +50,8 @@ const c08Schemas = 8
 func (c08) NumCases(t core.Tier) int { return tierN(t, 8, 48) }
 
 type c08call struct {
-	schema int
+	jsonNull bool // a JSON body `null` through zjson with a formatter stamping the call id (front-end created issue)
+	schema   int
 	mode   ref.Mode
 	data   any
 	val    any
@@ -198,6 +201,15 @@ func (c08) RunCase(c *core.Ctx) {
 	}
 	c.Count("calls_unstable_alone_skipped", len(calls)-len(stable))
 	calls = stable
+	// requests whose body is the JSON literal null: the issue is created by the front end, formatted per call
+	for i, sh := range shared {
+		if sh.node.Kind == spec.Struct {
+			for k := 0; k < 3; k++ {
+				calls = append(calls, &c08call{schema: i, mode: ref.Parse, jsonNull: true, desc: "Parse(zjson.Decode(`null`)) with WithIssueFormatter stamping the call id"})
+			}
+			break
+		}
+	}
 	if len(calls) == 0 {
 		return
 	}
@@ -226,6 +238,9 @@ func (c08) RunCase(c *core.Ctx) {
 				n := atomic.AddInt32(&sh.inflight, 1)
 				var o *run.Outcome
 				switch {
+				case cl.jsonNull:
+					stamp := "fmt:" + callID
+					o = run.Parse(sh.built, zjson.Decode(strings.NewReader("null")), nil, append(opts, z.WithIssueFormatter(func(e *z.ZogIssue, cx z.Ctx) { e.SetMessage(stamp) }))...)
 				case cl.mode == ref.Validate:
 					o = run.Validate(sh.built, cl.val, opts...)
 				case cl.alt:
@@ -239,7 +254,18 @@ func (c08) RunCase(c *core.Ctx) {
 					overlapped.Store(ci, true)
 				}
 				got := c08Result(o)
-				if got != cl.want {
+				if cl.jsonNull {
+					ok := !o.Panicked && len(o.Issues) == 1 && o.Issues[0].Code == "invalid_json" && o.Issues[0].Message == "fmt:"+callID && o.Issues[0].Path == ""
+					if !ok {
+						mu.Lock()
+						if len(diverged) < 5 {
+							c2 := *cl
+							c2.want = "exactly one invalid_json issue at $root whose message is fmt:" + callID
+							diverged = append(diverged, diverge{&c2, got, gid})
+						}
+						mu.Unlock()
+					}
+				} else if got != cl.want {
 					mu.Lock()
 					if len(diverged) < 5 {
 						diverged = append(diverged, diverge{cl, got, gid})
